@@ -1,4 +1,4 @@
-import AranyaV.Proofs.CompileCall
+import AranyaV.Proofs.CompileStruct
 /-!
 C22: the code-at-pc simulation, by induction on the evaluator's fuel.
 -/
@@ -7,7 +7,7 @@ open AranyaV.Gen.Lang
 variable (S : Sim)
 
 theorem exprSim_succ {n : Nat} (hP : ProgOk S) (ihE : ExprSim S n) (ihA : ArgsSim S n) (ihSs : StmtsSim S n)
-    (ihB : BodySim S n) : ExprSim S (n + 1) := by
+    (ihB : BodySim S n) (ihF : FieldsSim S n) : ExprSim S (n + 1) := by
   intro e env log wp c junk base fr K hsup hcode hdefs
   cases e with
   | unit =>
@@ -340,6 +340,8 @@ theorem exprSim_succ {n : Nat} (hP : ProgOk S) (ihE : ExprSim S n) (ihA : ArgsSi
     cases hb : isBuiltin f with
     | true => exact sim_builtin S ihA f args hb env log wp c junk base fr K hsup hcode hdefs
     | false => exact sim_call S hP ihA ihB f args hb env log wp c junk base fr K hsup hcode hdefs
+  | ffi mname fname ids args => exact sim_ffi S hP ihA mname fname ids args env log wp c junk base fr K hsup hcode hdefs
+  | struct name fields srcs => exact sim_struct S ihF name fields srcs env log wp c junk base fr K hsup hcode hdefs
   | block ss e => exact sim_block S ihE ihSs ss e env log wp c junk base fr K hsup hcode hdefs
   | _ => simp [supE] at hsup
 
@@ -347,13 +349,14 @@ theorem sim_all (hP : ProgOk S) : ∀ n, AllSim S n
   | 0 => sim_zero S
   | n + 1 =>
     let ih := sim_all hP n
-    { e := exprSim_succ S hP ih.e ih.a ih.ss ih.body
+    { e := exprSim_succ S hP ih.e ih.a ih.ss ih.body ih.fl
       a := argsSim_succ S ih.e ih.a
       ss := stmtsSim_succ S ih.s ih.ss
       s := stmtSim_succ S ih.e ih.br
       sc := scopedSim_succ S ih.ss
       br := branchesSim_succ S ih.e ih.sc ih.br
-      body := bodySim_succ S hP ih.ss }
+      body := bodySim_succ S hP ih.ss
+      fl := fieldsSim_succ S ih.e ih.fl }
 
 /-- Function level: running `f` from the harness's initial state. -/
 theorem fun_sim (hP : ProgOk S) (n f : Nat) (args : List Val) (entry : Nat)
